@@ -6,7 +6,7 @@ import numpy as np
 from .. import core, pipes, structural as st
 
 THEOREMS = ['Pk.C02.C02_partition', 'Pk.C02.C02_state_independent', 'Pk.C02.C02_state_independent_matrix',
-            'Pk.rowFn_xloc']
+            'Pk.rowFn_xloc', 'Pk.C02.C02_dependency_sound']
 KINDS = ['poly', 'bilinear', 'const', 'delay', 'sk', 'angle', 'rbf', 'kernel']
 ALG = ['poly', 'bilinear', 'const', 'delay']
 
